@@ -12,4 +12,4 @@ _orm.define(globals(), "C33", ("C33",), "txn",
             "transaction; out-of-order use of nested transactions is not generated",
             weights={"begin_nested": 4, "sp_commit": 2, "sp_rollback": 4, "rollback": 3, "commit": 3, "delete": 3, "set": 6, "k_rename": 2,
                      "flush": 6, "expunge": 0, "close": 0, "bulk": 1, "set_k": 2},
-            shape=_orm.txn_blocks, fault_fn=_orm.txn_faults)
+            shape=_orm.mixed((0.25, _orm.sp_orphan_blocks), (1, _orm.txn_blocks)), fault_fn=_orm.txn_faults)
